@@ -370,7 +370,7 @@ def _bound_to(call, callee, pname):
     return None
 
 
-def check_forwarding(prog, ctx):
+def check_forwarding(prog, ctx, rule="C13.D7", only_limits=False):
     """D7: the limits and the norm the caller chose reach the code that uses them.  (a) performSpatiallyAdaptiv forwards tol,
     max_time, max_evaluations and min_evaluations to continue_adaptive_refinement.  (b) every strategy constructor forwards its
     `norm` (and every other parameter it shares by name with SpatiallyAdaptivBase.__init__) to the base constructor."""
@@ -384,10 +384,12 @@ def check_forwarding(prog, ctx):
             n += 1
             v = _bound_to(call, car, pn)
             ok = isinstance(v, ast.Name) and v.id == pn
-            ctx.check(ok, "C13.D7", R.key_of(psa, "forwards:%s" % pn), psa.loc(call),
+            ctx.check(ok, rule, R.key_of(psa, "forwards:%s" % pn), psa.loc(call),
                       "performSpatiallyAdaptiv hands its `%s` on to the refinement loop" % pn,
                       "performSpatiallyAdaptiv does not pass its parameter `%s` on to continue_adaptive_refinement (%s): the loop runs with the "
                       "default instead of the caller's value" % (pn, "bound to `%s`" % src(v) if v is not None else "left to its default"))
+    if only_limits:
+        return
     binit = base.methods["__init__"]
     for st in [c_ for c_ in prog.all_subclasses(base, include_self=False)]:
         init = st.methods.get("__init__")
